@@ -41,7 +41,11 @@ TRUSTED = [
     "real constructors / calls do not write into the member objects is checked here, not proved): Check.xcheck also "
     "compares the members' (dataset_mode, return_ctx) after every step with the initial ones (code 8) and the dataset_mode "
     "every member was handed with the entry point's own (code 9); the Python oracle additionally compares every plain "
-    "attribute of every member and of every entry point built so far",
+    "attribute of every member and of every entry point built so far; MUTATION steps (half of the shared cases + 70 "
+    "directed ones): a member's default_collate_mode attribute is switched after construction (the harness's own members: "
+    "property backed by an attribute), members are inserted into / removed from / swapped in the list object a compose "
+    "holds -- every later call is judged against a FRESH entry point of the members and member modes it has NOW "
+    "(harness state_at replays the mutations; in Coq a mutation step is an OBuild step: dataset_mode / return_ctx untouched)",
     "DataLoader runs (family 'loader': the pipeline as collate_fn of a real torch DataLoader over the ModeWrapper, 0 / 2 forked "
     "workers, batch sizes 1-4, drop_last) are judged by the Python oracle only (no operation trace from worker processes)",
 ]
@@ -68,7 +72,8 @@ RULE = ("random modes of 1-4 items (Python int / float, 0-d tensor, sequence ten
         "(compose / wrapper / standalone member) around one shared member with different dataset_mode (sub-permutations of the "
         "items) and / or return_ctx, members with / without a standalone configuration of their own, builds and calls "
         "interleaved (40%) or all built first, 1-3 calls per entry point on batches of 1-4 samples in random order "
-        "(quick 300 + directed, thorough 3000); non-trivial = at least one member call observed; distinct by "
+        "(quick 300 + directed, thorough 3000), half of them with 1-3 mutation steps after construction (member mode "
+        "switched / compose member list edited in place: insert, remove, swap) each followed by a call; non-trivial = at least one member call observed; distinct by "
         "(entry, rc, member modes+kinds, item kinds incl. dtype/rank/length profile, profile)")
 
 MODES = {"none": "MNone", "before": "MBefore", "after": "MAfter"}
@@ -289,9 +294,94 @@ def gen_shared_case(rng, big=False):
                 c = rng.choice(ready)
                 rest.remove(c)
                 script.append(c)
-    return {"family": "shared", "items": pool, "kinds": base["kinds"], "rows": base["rows"], "ctx": base["ctx"],
+    case = {"family": "shared", "items": pool, "kinds": base["kinds"], "rows": base["rows"], "ctx": base["ctx"],
             "order": [], "rc": False, "entry": "shared", "members": members, "mcfg": mcfg, "eps": eps, "script": script,
             "scalar_tensor": base["scalar_tensor"], "profile": base["profile"]}
+    if rng.random() < 0.5:
+        add_mutations(rng, case)
+    return case
+
+
+def add_mutations(rng, case):
+    """MUTATION steps after construction: a member's default_collate_mode attribute is switched (the harness's own members
+    allow it), members are inserted into / removed from / swapped in the list object a compose holds; every mutation is
+    followed by a call of an entry point it concerns.  From then on the entry point must behave like a FRESH entry point
+    of the members (and member modes) it has NOW."""
+    script = case["script"]
+    eps, members = case["eps"], case["members"]
+    rows_n = len(case["rows"])
+    first_build = next((i for i, st in enumerate(script) if st[0] == "build"), None)
+    if first_build is None:
+        return
+    places = sorted(rng.randint(first_build + 1, len(script)) for _ in range(rng.choice([1, 1, 2, 3])))
+    for n_done, at in enumerate(places):
+        at += n_done
+        cur_members, sels = state_at({**case, "script": script}, at)
+        built = [st[1] for st in script[:at] if st[0] == "build"]
+        composes = [j for j in built if eps[j]["entry"] == "compose"]
+        switchable = [k for k, m in enumerate(cur_members) if m[1] in SWITCHABLE]
+        if composes and (not switchable or rng.random() < 0.5):
+            j = rng.choice(composes)
+            outside = [k for k in range(len(members)) if k not in sels[j]]
+            r = rng.random()
+            if outside and (r < 0.5 or len(sels[j]) == 1):
+                step = ["edit", j, "insert", rng.randint(0, len(sels[j])), rng.choice(outside)]
+            elif len(sels[j]) > 1 and r < 0.75:
+                step = ["edit", j, "remove", rng.randrange(len(sels[j]))]
+            elif len(sels[j]) > 1:
+                p = rng.randrange(len(sels[j]))
+                step = ["edit", j, "swap", p, rng.choice([q for q in range(len(sels[j])) if q != p])]
+            else:
+                continue
+            concerned = [j]
+        elif switchable:
+            k = rng.choice(switchable)
+            step = ["setmode", k, rng.choice([m for m in ("none", "before", "after") if m != cur_members[k][0]])]
+            concerned = [j for j in built if k in sels[j]] or built
+        else:
+            continue
+        script.insert(at, step)
+        if not any(st[0] == "call" and st[1] in concerned for st in script[at + 1:]) or rng.random() < 0.3:
+            B = rng.choice([1, 2, 2, 3])
+            script.append(["call", rng.choice(concerned), [rng.randrange(rows_n) for _ in range(B)]])
+
+
+def directed_mutations():
+    """the typical mutation histories: compose built, called, then a member's mode switched / the member list the caller
+    still holds edited, then called again (with and without contexts)"""
+    out = []
+    rows = [{"f0": [1, 2], "f1": 10}, {"f0": [3], "f1": 11}, {"f0": [5, 6, 7], "f1": 12}]
+    ctx = [[[1, 7]], [[1, 8]], [[1, 9]]]
+    kinds = {"f0": "seq", "f1": "scalar"}
+
+    def case(members, eps, script, items=("f1",)):
+        return {"family": "shared", "items": ["f0", "f1"], "kinds": kinds, "rows": rows, "ctx": ctx, "order": [], "rc": False,
+                "entry": "shared", "members": members, "mcfg": [None] * len(members), "eps": eps, "script": script,
+                "scalar_tensor": False, "profile": "ragged"}
+
+    for rc in (False, True):
+        for a in ("none", "before", "after"):
+            for b in ("none", "before", "after"):
+                if a != b:
+                    for entry in ("compose", "wrapper"):
+                        out.append(case([[a, "mark", 3]], [{"entry": entry, "items": ["f1"], "rc": rc, "sel": [0]}],
+                                        [["build", 0], ["call", 0, [0, 1]], ["setmode", 0, b], ["call", 0, [1, 2]]]))
+        for m0, m1 in (("none", "before"), ("before", "none"), ("none", "none"), ("before", "before"), ("after", "before"),
+                       ("none", "after")):
+            members = [[m0, "mark", 2], [m1, "mark", 5]]
+            ep = [{"entry": "compose", "items": ["f1"], "rc": rc, "sel": [0]}]
+            for pos in (0, 1):
+                out.append(case(members, ep, [["build", 0], ["call", 0, [0, 1]], ["edit", 0, "insert", pos, 1],
+                                              ["call", 0, [1, 2]], ["edit", 0, "remove", pos], ["call", 0, [0, 2]]]))
+            ep2 = [{"entry": "compose", "items": ["f1"], "rc": rc, "sel": [0, 1]}]
+            out.append(case(members, ep2, [["build", 0], ["edit", 0, "swap", 0, 1], ["call", 0, [0, 1]],
+                                           ["edit", 0, "remove", 0], ["call", 0, [2]]]))
+        # the padding collator composed alone, then another None-mode member put in front of / behind it
+        members = [["none", "pad", 0], ["none", "id", 0]]
+        ep = [{"entry": "compose", "items": ["f0", "f1"], "rc": rc, "sel": [0]}]
+        for pos in (0, 1):
+            out.append(case(members, ep, [["build", 0], ["edit", 0, "insert", pos, 1], ["call", 0, [0, 1, 2]]]))
+    return out
 
 
 def directed_shared():
@@ -437,6 +527,7 @@ def gen_cases(rng, tier):
     out += [gen_case(rng) for _ in range(n)]
     out += [gen_real_case(rng) for _ in range(n // 6)]
     out += directed_shared()[::1 if tier == "thorough" else 3]
+    out += directed_mutations()
     out += [gen_shared_case(rng, big=tier == "thorough" and rng.random() < 0.3) for _ in range(n // 3)]
     if tier == "thorough":
         out += [gen_case(rng, big=True) for _ in range(3000)]
@@ -449,7 +540,7 @@ def gen_cases(rng, tier):
 def search_cases(rng, tier):
     for c in directed_cases():
         yield c
-    for c in directed_shared():
+    for c in directed_mutations() + directed_shared():
         yield c
     for _ in range(30000):
         r = rng.random()
@@ -458,9 +549,9 @@ def search_cases(rng, tier):
 
 def shrink_shared(c):
     script = c["script"]
-    # drop a call
+    # drop a call / a mutation step
     for i, st in enumerate(script):
-        if st[0] == "call":
+        if st[0] == "call" or st[0] in MUTATIONS:
             yield {**c, "script": script[:i] + script[i + 1:]}
     # drop an entry point that is no longer called (keep the numbering: only its build step goes)
     called = {st[1] for st in script if st[0] == "call"}
@@ -989,13 +1080,58 @@ def _attrs(objs):
     return out
 
 
-def ep_subcase(case, j, order):
+MUTATIONS = ("setmode", "edit")
+SWITCHABLE = ("id", "mark", "ctxw")     # the harness's own members: default_collate_mode is a property backed by an attribute
+
+
+def apply_edit(sel, n_members, step):
+    """the member list of a compose after ["edit", j, "insert", pos, member] / ["edit", j, "remove", pos] /
+    ["edit", j, "swap", p, q] on the list object the compose holds (positions are taken modulo the current length, a
+    member is never listed twice, the last member is never removed: every script stays meaningful when steps are dropped)"""
+    sel = list(sel)
+    what = step[2]
+    if what == "insert":
+        if step[4] not in sel and 0 <= step[4] < n_members:
+            sel.insert(step[3] % (len(sel) + 1), step[4])
+    elif what == "remove":
+        if len(sel) > 1:
+            del sel[step[3] % len(sel)]
+    elif what == "swap":
+        p, q = step[3] % len(sel), step[4] % len(sel)
+        sel[p], sel[q] = sel[q], sel[p]
+    return sel
+
+
+def state_at(case, upto=None):
+    """(members, member list of every entry point) after the MUTATION steps among the first `upto` steps of the script:
+    ["setmode", k, mode] switches member k's default_collate_mode attribute (the harness's own members only),
+    ["edit", j, ...] edits the list object compose j holds (only once it is built)"""
+    members = [list(m) for m in case["members"]]
+    sels = [list(ep["sel"]) for ep in case["eps"]]
+    built = set()
+    script = case["script"] if upto is None else case["script"][:upto]
+    for step in script:
+        if step[0] == "build":
+            built.add(step[1])
+        elif step[0] == "setmode":
+            if members[step[1]][1] in SWITCHABLE:
+                members[step[1]][0] = step[2]
+        elif step[0] == "edit":
+            if step[1] in built and case["eps"][step[1]]["entry"] == "compose":
+                sels[step[1]] = apply_edit(sels[step[1]], len(members), step)
+    return members, sels
+
+
+def ep_subcase(case, j, order, upto=None):
     """entry point j of a shared-member case, seen as an ordinary case of its OWN: its own dataset mode, return_ctx and
-    member list (a standalone member call follows the member's own constructor configuration), on the given samples"""
+    member list (a standalone member call follows the member's own constructor configuration), on the given samples;
+    upto = number of script steps already executed: the members carry the default_collate_mode they have NOW and the
+    compose the members its list holds NOW (a FRESH compose of the same final members is the reference)"""
     ep = case["eps"][j]
+    members, sels = state_at(case, 0 if upto is None else upto)
     sub = {k: v for k, v in case.items() if k not in ("family", "eps", "script", "mcfg")}
     sub.update(items=list(ep["items"]), rc=ep["rc"], entry=ep["entry"], order=list(order),
-               members=[case["members"][i] for i in ep["sel"]])
+               members=[members[i] for i in sels[j]])
     return sub
 
 
@@ -1009,8 +1145,31 @@ def run_shared(case):
     _, _, members, _ = _build(probe, log)
     eps = [None] * len(case["eps"])
     obs = {"res": "ok", "trace": [], "attrs0": _attrs(members), "steps": []}
-    for step in case["script"]:
+    for n_step, step in enumerate(case["script"]):
         j = step[1]
+        if step[0] in MUTATIONS:
+            st = {"op": step[0], "ep": j}
+            try:
+                if step[0] == "setmode":
+                    if case["members"][j][1] in SWITCHABLE:
+                        members[j].mode = step[2]
+                elif eps[j] is not None and case["eps"][j]["entry"] == "compose":
+                    _, sels = state_at(case, n_step)
+                    want = apply_edit(sels[j], len(members), step)
+                    held = eps[j].collators                  # the list object the compose holds, edited in place
+                    if step[2] == "insert" and len(want) > len(sels[j]):
+                        held.insert(step[3] % (len(held) + 1), members[step[4]])
+                    elif step[2] == "remove" and len(want) < len(sels[j]):
+                        del held[step[3] % len(held)]
+                    elif step[2] == "swap":
+                        p, q = step[3] % len(held), step[4] % len(held)
+                        held[p], held[q] = held[q], held[p]
+            except Exception as e:  # noqa
+                st["err"] = type(e).__name__ + ": " + str(e)[:200]
+            st["members"] = _attrs(members)
+            st["eps"] = _attrs([e if case["eps"][i]["entry"] != "single" else None for i, e in enumerate(eps)])
+            obs["steps"].append(st)
+            continue
         ep = case["eps"][j]
         mode = " ".join(ep["items"])
         st = {"op": step[0], "ep": j}
@@ -1025,13 +1184,14 @@ def run_shared(case):
             except Exception as e:  # noqa
                 st["err"] = type(e).__name__ + ": " + str(e)[:200]
         else:
-            sub = ep_subcase(case, j, step[2])
+            sub = ep_subcase(case, j, step[2], n_step)
+            _, sels_now = state_at(case, n_step)
             _, batch, _, _ = _build(sub, log, with_members=False)
             del log[:]
             entry = eps[j]
             o = _observe(lambda: entry(batch), sub, log)
             # member numbers -> positions in this entry point's own member list
-            pos = {i: p for p, i in enumerate(ep["sel"])}
+            pos = {i: p for p, i in enumerate(sels_now[j])}
             st["passed"] = [e[2] for e in o["trace"] if e[0] == "call"]
             o["trace"] = [["call", pos.get(e[1], 100 + e[1])] if e[0] == "call" else e for e in o["trace"]]
             st["order"] = list(step[2])
@@ -1046,12 +1206,35 @@ def run_shared(case):
 def oracle_shared(case, obs):
     a0 = obs["attrs0"]
     built = {}
+    a0 = [dict(a) if a is not None else None for a in a0]
     for n_step, st in enumerate(obs["steps"]):
         j = st["ep"]
+        if st["op"] in MUTATIONS:
+            step = case["script"][n_step]
+            where = f"step {n_step} ({step}) of script {case['script']}"
+            if st.get("err"):
+                return f"harness mutation step raised {st['err']} at {where}"
+            members_now, _ = state_at(case, n_step + 1)
+            if st["op"] == "setmode" and a0[j] is not None and "mode" in a0[j]:
+                a0[j]["mode"] = members_now[j][0]               # the switched attribute is the new baseline
+            if st["op"] == "edit" and j in built:
+                if {k: v for k, v in st["eps"][j].items() if k != "collators"} != \
+                        {k: v for k, v in built[j].items() if k != "collators"}:
+                    return f"entry point {j} had its attributes changed from {built[j]} to {st['eps'][j]} by {where}"
+                built[j] = st["eps"][j]                         # the edited member list is the new baseline
+            for k, (now, was) in enumerate(zip(st["members"], a0)):
+                if now != was:
+                    return f"member collator {k} ({case['members'][k]}) shows attributes {now}, expected {was} after {where}"
+            for i, was in built.items():
+                if st["eps"][i] != was:
+                    return f"entry point {i} had its attributes changed from {was} to {st['eps'][i]} by {where}"
+            continue
         ep = case["eps"][j]
         mode = " ".join(ep["items"])
+        members_now, sels_now = state_at(case, n_step)
         where = (f"step {n_step} ({'building' if st['op'] == 'build' else 'calling'} entry point {j}: {ep['entry']} over members "
-                 f"{ep['sel']}, dataset_mode={mode!r}, return_ctx={ep['rc']}) of script {case['script']}")
+                 f"{sels_now[j]} (built over {ep['sel']}), members now {members_now}, dataset_mode={mode!r}, "
+                 f"return_ctx={ep['rc']}) of script {case['script']}")
         if st.get("err"):
             return f"constructor raised {st['err']} at {where}"
         # building or calling an entry point does not change the configuration attributes of its member collators
@@ -1069,7 +1252,7 @@ def oracle_shared(case, obs):
             if st["eps"][i] != was:
                 return f"entry point {i} had its attributes changed from {was} to {st['eps'][i]} by {where}"
         if st["op"] == "call":
-            sub = ep_subcase(case, j, st["order"])
+            sub = ep_subcase(case, j, st["order"], n_step)
             wrong = [m for m in st["passed"] if m != mode]
             if wrong:
                 return (f"the members were handed dataset_mode {wrong[0]!r}, the entry point was configured with "
@@ -1077,7 +1260,8 @@ def oracle_shared(case, obs):
             msg = oracle(sub, st["obs"])
             if msg:
                 return (f"an entry point built around SHARED member collators does not behave like a fresh configuration of "
-                        f"its own (dataset_mode, return_ctx, members): {msg} -- at {where}; all entry points: {case['eps']}; "
+                        f"its own (dataset_mode, return_ctx, the members its list holds NOW with the default_collate_mode "
+                        f"they have NOW): {msg} -- at {where}; all entry points: {case['eps']}; "
                         f"member constructor configurations: {case['mcfg']}")
     return None
 
@@ -1271,9 +1455,9 @@ def coq_applicable(case, obs):
     if "harness_exception" in obs:
         return False
     if case.get("family") == "shared":
-        return all(st["op"] == "build" and not st.get("err") or
-                   st["op"] == "call" and coq_applicable(ep_subcase(case, st["ep"], st["order"]), st["obs"])
-                   for st in obs["steps"])
+        return all(st["op"] in ("build",) + MUTATIONS and not st.get("err") or
+                   st["op"] == "call" and coq_applicable(ep_subcase(case, st["ep"], st["order"], n), st["obs"])
+                   for n, st in enumerate(obs["steps"]))
     if is_ambiguous(case) or case.get("family") == "loader":
         return False
     if obs["res"] == "Other":
@@ -1316,12 +1500,13 @@ def coq_case(case, obs):
         return [attr(a) for a in l] or Raw("(@nil mattr)")
 
     steps = []
-    for st in obs["steps"]:
-        if st["op"] == "build":
+    for n_step, st in enumerate(obs["steps"]):
+        if st["op"] == "build" or st["op"] in MUTATIONS:
+            # a mutation step (member mode switched / compose member list edited) leaves dataset_mode / return_ctx alone
             steps.append(C("OBuild", snap(st["members"])))
         else:
             ep = case["eps"][st["ep"]]
-            sub = ep_subcase(case, st["ep"], st["order"])
+            sub = ep_subcase(case, st["ep"], st["order"], n_step)
             passed = [Nat(ids.get(m, 999)) for m in st["passed"]] or Raw("(@nil nat)")
             steps.append(C("OCall", Nat(ids[" ".join(ep["items"])]), passed, Raw(_coq_call(sub, st["obs"])),
                            snap(st["members"])))
@@ -1385,6 +1570,12 @@ def features_shared(case, obs):
     for st in obs.get("steps", []):
         if st["op"] == "call":
             yield "shared call: res=" + st["obs"].get("res", "?")
+    muts = [(i, st) for i, st in enumerate(case["script"]) if st[0] in MUTATIONS]
+    for i, st in muts:
+        later = any(c[0] == "call" for c in case["script"][i + 1:])
+        yield "shared mutation: " + (st[0] if st[0] == "setmode" else "edit-" + st[2]) + (" then called" if later else " (never called after)")
+    if not muts:
+        yield "shared mutation: none"
     for m in case["members"]:
         yield "kind=" + m[1]
 
@@ -1430,7 +1621,7 @@ def nontrivial_key(case, obs):
             return None
         return ("shared", tuple((m[0], m[1]) for m in case["members"]), repr(case["mcfg"]),
                 tuple((e["entry"], " ".join(e["items"]), e["rc"], tuple(e["sel"])) for e in case["eps"]),
-                tuple((st[0], st[1]) for st in case["script"]))
+                tuple((st[0], st[1]) + (tuple(st[2:]) if st[0] in MUTATIONS else ()) for st in case["script"]))
     if case.get("family") == "loader":
         return ("loader", case["batch_size"], case["workers"], case["drop_last"], case["entry"], case["rc"],
                 tuple((m[0], m[1]) for m in case["members"]))
